@@ -1,8 +1,191 @@
-(* C10 -- placeholder while the proofs are being written; see Proofs/Tables.v, Proofs/Router.v *)
-From Coq Require Import ZArith List.
+(* C10 -- routing entries installed in a chip's router are the entries given.
+
+   Models: Model/Tables.v (RoutingTree.traverse, routing_tree_to_tables), Model/Router.v (load_routing_tables,
+   load_routing_table_entries, get_routing_table_entries, unpack_routing_table_entry and the machine they
+   talk to).  Predicates: Spec/Tables.v, Spec/Router.v.  Every integer expression of the loader and of the
+   decoder is the definition regenerated from the source text (Generated/GenRouter.v), so these theorems
+   are re-proved against the current code on every run.
+
+   Representation: a Python set of Routes is a strictly increasing list of integers; None among the
+   sources is -1 ([none_dir]).  `sources` are not stored by the hardware: read-back returns {None}. *)
+From Coq Require Import ZArith List Bool.
 Require Import Rig.Model.Base Rig.Generated.GenRouter Rig.Model.Tables Rig.Model.Router.
+Require Import Rig.Spec.Tables Rig.Spec.Router.
+Require Import Rig.Proofs.Tables Rig.Proofs.TablesFold Rig.Proofs.RouterWord Rig.Proofs.Router.
 Import ListNotations.
 Open Scope Z_scope.
 
-Example C10_route_word_example : route_word [0; 7; 23] = 8388737.
-Proof. reflexivity. Qed.
+(* ================================================================================================ *)
+(** * Trees to tables *)
+
+(* RoutingTree.traverse on a well-formed tree (every subtree hangs on a link route) terminates normally
+   and yields the nodes breadth first: level by level, each level from left to right. *)
+Theorem C10_traverse_breadth_first : forall t,
+  is_node t -> wf_tree t -> traverse t = (bfs_order t, TDone).
+Proof. exact traverse_bfs. Qed.
+
+(* The visits are exactly the nodes of the tree, each with the direction taken to reach it and the set
+   of routes of its children (stated with the inductive relation node_in, independent of the traversal). *)
+Theorem C10_visits_are_the_nodes : forall t v,
+  In v (bfs_order t) <-> exists d c kids, node_in none_dir t d c kids /\ v = (d, c, out_set kids).
+Proof. exact bfs_order_nodes. Qed.
+
+(* The set of out directions of a node: the routes of all its children that have one -- links and cores
+   alike, whether the child is a subtree or a vertex; children whose route is None are ignored. *)
+Theorem C10_out_set_spec : forall kids r,
+  In r (out_set kids) <-> exists t, In (Some r, t) kids.
+Proof. exact out_set_In. Qed.
+
+(* tables_of_trees_spec.  For every set of nets whose trees are well formed and have keys, with V the
+   sequence of visits (nets in dictionary order, each tree breadth first):
+   - the function never fails otherwise than with MultisourceRouteError;
+   - if it returns tables T: the chips of T are the chips visited, in first-visit order; on each chip
+     there is one entry per (key, mask) visited there, in first-visit order; the route of the entry is
+     the set of routes by which every visit with that key and mask leaves the chip; its sources are
+     exactly the links by which those visits enter the chip (the opposite of the direction travelled,
+     None for a root); and no two visits of a chip with the same key and mask fork differently;
+   - if it raises MultisourceRouteError(key, mask, chip): the error names the first visit, in order,
+     whose out set differs from that of an earlier visit of the same chip with the same key and mask. *)
+Theorem C10_tables_of_trees_spec : forall routes net_keys,
+  inputs_ok routes net_keys ->
+  match routing_tree_to_tables routes net_keys with
+  | ROk T => tables_spec (all_visits routes net_keys) T /\ ~ conflict (all_visits routes net_keys)
+  | RMultisource k m c => first_conflict (all_visits routes net_keys) k m c
+  | ROther => False
+  | RFuel => False
+  end.
+Proof. exact tables_of_trees. Qed.
+
+(* MultisourceRouteError precisely when two visits (of two trees, or of one tree passing a chip twice)
+   with the same key and mask leave a chip by different sets of routes. *)
+Theorem C10_multisource_iff : forall routes net_keys,
+  inputs_ok routes net_keys ->
+  ((exists k m c, routing_tree_to_tables routes net_keys = RMultisource k m c)
+   <-> conflict (all_visits routes net_keys)).
+Proof. exact multisource_iff. Qed.
+
+(* ================================================================================================ *)
+(** * The route word: sets of routes within 0..23 <-> 24-bit words *)
+
+(* bit i of the word is set iff route i is in the set *)
+Theorem C10_route_word_bits : forall rs i,
+  (forall r, In r rs -> 0 <= r) -> 0 <= i ->
+  Z.testbit (route_word rs) i = existsb (Z.eqb i) rs.
+Proof. exact route_word_testbit. Qed.
+
+Theorem C10_route_word_range : forall rs n,
+  0 <= n -> (forall r, In r rs -> 0 <= r < n) -> 0 <= route_word rs < 2 ^ n.
+Proof. exact route_word_bound. Qed.
+
+(* route_word_bij, set -> word -> set: decoding the word of a set gives the set back *)
+Theorem C10_route_word_bij_decode : forall rs,
+  (forall r, In r rs -> 0 <= r < 24) ->
+  forall r, In r (decode_word (route_word rs)) <-> In r rs.
+Proof. exact decode_route_word. Qed.
+
+(* route_word_bij, word -> set -> word: every 24-bit word is the word of its decoded set *)
+Theorem C10_route_word_bij_encode : forall w,
+  0 <= w < 2 ^ 24 -> route_word (decode_word w) = w.
+Proof. exact route_word_decode. Qed.
+
+(* ================================================================================================ *)
+(** * Loading and reading back *)
+
+(* Allocation granted (the allocator answers base <> 0): load_routing_table_entries succeeds after
+   exactly four commands -- allocate, read sv.sdram_sys, write the packed records to the staging buffer,
+   router load with count / app id / buffer / base --; afterwards router entries base, base+1, ... hold
+   exactly the given entries in order with the application id (route word, key, mask), every other router
+   entry is what it was, no other chip changed, and the chip is again in a well-formed state. *)
+Theorem C10_load_installs_entries : forall m es x y app_id cs cs1 base,
+  cassoc (x, y) m = Some cs -> chip_ok cs ->
+  Forall entry_ok es -> 0 <= app_id < 256 ->
+  16 * len es <= len (cs_bufmem cs) ->
+  rtr_alloc cs (len es) = (cs1, base) -> base <> 0 ->
+  exists m' cs' data,
+    load_routing_table_entries m es x y app_id
+    = (LOk, m',
+       [alloc_item x y app_id (len es) base;
+        TRead x y 0 sv_sdram_sys_addr sv_field_size (cksum (le_bytes 4 (cs_buf cs)));
+        TWrite x y 0 (cs_buf cs) (16 * len es) (cksum data);
+        TScp x y lrte_load_p lrte_load_cmd
+             (lrte_load_arg1 (len es) app_id (cs_buf cs) base) (cs_buf cs) base 0])
+    /\ data = concat (Proofs.RouterBytes.recs_from 0 es)
+    /\ cassoc (x, y) m' = Some cs'
+    /\ (forall c, c <> (x, y) -> cassoc c m' = cassoc c m)
+    /\ 1 <= base /\ base + len es <= 1024
+    /\ installed (cs_slots cs') base app_id es
+    /\ unchanged_outside (cs_slots cs) (cs_slots cs') base (length es)
+    /\ cs_free cs' = cs_free cs1
+    /\ chip_ok cs'.
+Proof. exact load_success. Qed.
+
+(* Allocation refused (the allocator answers 0): SpiNNakerRouterError(count, x, y); the allocation is the
+   only command issued -- no read, no write, no router load --; the chip (router entries, free list,
+   memory) and every other chip are exactly as before. *)
+Theorem C10_alloc_failure_installs_nothing : forall m es x y app_id cs cs1,
+  cassoc (x, y) m = Some cs -> chip_ok cs ->
+  rtr_alloc cs (len es) = (cs1, 0) ->
+  exists m',
+    load_routing_table_entries m es x y app_id
+    = (LRouterError (len es) x y, m', [alloc_item x y app_id (len es) 0])
+    /\ cassoc (x, y) m' = Some cs
+    /\ (forall c, c <> (x, y) -> cassoc c m' = cassoc c m).
+Proof. exact load_alloc_failure. Qed.
+
+(* get_routing_table_entries returns one item per router entry, in order: what unpack_routing_table_entry
+   makes of the entry's 16 bytes *)
+Theorem C10_read_back : forall m x y cs,
+  cassoc (x, y) m = Some cs -> chip_ok cs ->
+  get_routing_table_entries m x y
+  = (Ok (map (fun s => decode_bytes (render_slot s)) (cs_slots cs)), readback_trace x y cs).
+Proof. exact read_back. Qed.
+
+(* load_then_read: after a granted load, reading the router back returns 1024 items of which those at
+   base, base+1, ... are the given entries: same key, mask and set of routes, the application id, core 0;
+   the sources come back as {None} (the hardware does not store them). *)
+Theorem C10_load_then_read : forall m es x y app_id cs cs1 base,
+  cassoc (x, y) m = Some cs -> chip_ok cs ->
+  Forall entry_ok es -> 0 <= app_id < 256 ->
+  16 * len es <= len (cs_bufmem cs) ->
+  rtr_alloc cs (len es) = (cs1, base) -> base <> 0 ->
+  exists m' tr l tr',
+    load_routing_table_entries m es x y app_id = (LOk, m', tr)
+    /\ get_routing_table_entries m' x y = (Ok l, tr')
+    /\ length l = 1024%nat
+    /\ forall i e, nth_error es i = Some e ->
+         exists got, nth_error l (Z.to_nat base + i) = Some got /\ read_back_of app_id e got.
+Proof. exact load_then_read. Qed.
+
+(* ================================================================================================ *)
+(** * The hypotheses are satisfiable *)
+
+Definition ex_tree1 : tree :=
+  TNode (0, 0) [(Some 0, TNode (1, 0) [(Some 7, TLeaf 5); (None, TLeaf 6)]); (Some 2, TNode (0, 1) [(Some 6, TLeaf 1)])].
+Definition ex_tree2 : tree :=
+  TNode (1, 1) [(Some 4, TNode (0, 0) [(Some 0, TNode (1, 0) [(Some 7, TLeaf 5)]); (Some 2, TLeaf 9)])].
+
+Example C10_inputs_ok_example :
+  inputs_ok [(1, ex_tree1); (2, ex_tree2)] [(1, (10, 255)); (2, (10, 255))]
+  /\ routing_tree_to_tables [(1, ex_tree1); (2, ex_tree2)] [(1, (10, 255)); (2, (10, 255))]
+     = ROk [((0, 0), [mkEntry [0; 2] 10 255 [-1; 1]]); ((1, 0), [mkEntry [7] 10 255 [3]]);
+            ((0, 1), [mkEntry [6] 10 255 [5]]); ((1, 1), [mkEntry [4] 10 255 [-1]])].
+Proof.
+  split; [|reflexivity].
+  repeat constructor; try (eexists; reflexivity); simpl; repeat split; try (eexists; split; [reflexivity|]); try lia.
+Qed.
+
+Definition ex_chip : chipstate :=
+  mk_chip (free_slot 0 4294967295 0 0 0) [(5, mkSlot 0 66 3 1 2)] [(1, 4); (6, 1018)] false
+          1612972032 16384 170 1895759872.
+
+Example C10_chip_ok_example :
+  chip_ok ex_chip
+  /\ Forall entry_ok [mkEntry [0; 7; 23] 4660 65535 [-1]; mkEntry [] 1 1 [3]]
+  /\ rtr_alloc ex_chip 2 = (set_free ex_chip [(3, 2); (6, 1018)], 1).
+Proof.
+  split; [|split; [|reflexivity]].
+  - unfold chip_ok. split; [reflexivity|]. split.
+    + repeat constructor; simpl; lia.
+    + vm_compute. intuition congruence.
+  - repeat constructor; simpl; intros; intuition lia.
+Qed.
